@@ -28,7 +28,10 @@
 //! information to returned data and the addition of extra failure modes
 //! related to `$INCLUDE` processing.
 
+#[cfg(not(quandary_verif))]
 use std::fs::File;
+#[cfg(quandary_verif)]
+use crate::verif::fs::File;
 use std::io;
 use std::iter;
 use std::path::Path;
